@@ -241,6 +241,22 @@ void vp_c09_arity15(int b, vp_obs15& o)
   o.v[0] = a1; o.v[1] = a2; o.v[2] = a3; o.v[3] = a4; o.v[4] = a5; o.v[5] = a6; o.v[6] = a7; o.v[7] = a8; o.v[8] = a9; o.v[9] = a10;
   o.v[10] = a11; o.v[11] = a12; o.v[12] = a13; o.v[13] = a14; o.v[14] = a15;
 }
+// C14: a movable mock is moved; its active and saturated expectations belong to the new object
+void vp_c14_move(int x, vp_obs& o)
+{
+  vp_MM a;
+  ALLOW_CALL(a, f(trompeloeil::_)).RETURN(_1 - 1);
+  REQUIRE_CALL(a, f(trompeloeil::_)).TIMES(2).RETURN(_1 + 1);
+  REQUIRE_CALL(a, g());
+  a.g();                       // the g() expectation is saturated now
+  o.x = a.f(x);
+  vp_MM b = std::move(a);
+  o.ret = b.f(x);              // handled by the moved (newest active) expectation, which saturates
+  o.y = b.f(x);                // now the older ALLOW_CALL, moved as well, takes over
+  o.extra = 0;
+  try { b.g(); }               // beyond the upper bound: must be reported against the moved saturated expectation
+  catch (...) { o.extra = 1; }
+}
 void vp_build_objects()
 {
   vp_M m; trompeloeil::sequence s;
